@@ -1285,3 +1285,30 @@ RULES["C03"] = ("part (a): exhaustive (s,e) geometry and random cases through th
                 "load/store call site and byte array extracted from the tokens of generated definitions (boundary-biased "
                 "layouts and whole devices) is checked against start < end <= size <= 8*bytes and width <= carrier")
 CHECKS["C03"] = check_c03
+
+
+def compare_enum_tables(af, mf):
+    """The Lean conversion functions (DDV.Gen.EnumSem, tabulated by the driver) against the match
+    arms the real generator emitted (evaluated from the implementation's facts)."""
+    ens = {}
+    for en in af.get("enums", []):
+        ens.setdefault(en["name"], en)
+    for t in mf.get("enum_tables", []):
+        en = ens.get(t["name"])
+        if en is None:
+            continue
+        from_num, to_num, names, catch = enum_semantics(en)
+        for row in t["from"]:
+            raw = int(row[0])
+            got = from_num(raw)
+            if row[1] == "ok":
+                want = ("ok", (row[2], int(row[3]) if row[3] is not None else None))
+            else:
+                want = ("err", (int(row[2]), row[3]))
+            if got != want:
+                return f"enum {t['name']}: emitted arms give {got} for raw {raw}, EnumSem.fromNum gives {want}"
+        for name, num in t["into"]:
+            got = to_num((name, 7))
+            if got != (int(num) if num is not None else None):
+                return f"enum {t['name']}: emitted into-arm of {name} gives {got}, EnumSem.toNum gives {num}"
+    return None
